@@ -71,7 +71,7 @@ where
         #[cfg(feature = "full-lexer")]
         let lxr =
             lxr.filter_ok(|(tok, _)| !matches!(tok, Tok::Comment { .. } | Tok::NonLogicalNewline));
-        Self::parse_tokens(lxr, source_path)
+        Self::parse_tokens(lxr, source_path).map_err(|err| not_before(err, offset))
     }
     fn lex_starts_at(
         source: &str,
@@ -384,7 +384,18 @@ pub fn parse_starts_at(
     offset: TextSize,
 ) -> Result<ast::Mod, ParseError> {
     let lxr = lexer::lex_starts_at(source, mode, offset);
-    parse_tokens(lxr, mode, source_path)
+    parse_tokens(lxr, mode, source_path).map_err(|err| not_before(err, offset))
+}
+
+/// The start marker token that is fed to the parser in front of the real tokens has no position of
+/// its own (`0..0`). An error located at it (end of input right after the marker: a source without
+/// any token in expression mode, or an empty statement) would otherwise be reported at offset 0
+/// even when the source starts at `offset`.
+fn not_before(mut err: ParseError, offset: TextSize) -> ParseError {
+    if err.offset < offset {
+        err.offset = offset;
+    }
+    err
 }
 
 /// Parse an iterator of [`LexResult`]s using the specified [`Mode`].
